@@ -91,6 +91,29 @@ var alphabet = []partlib.Op{
 	{Kind: "bins", Items: []partlib.ItemSpec{{ID: 0, Vec: 1, Meta: 2}, {ID: 1, Vec: 0, Meta: 0}}},
 }
 
+// enumerated is the part of the alphabet the enumerated histories draw from; the operations behind it only occur in
+// the directed histories: metadata on both sides of the byte limits of the snapshot format, in multi-byte characters
+// (partlib.MBMetas: 9 = 255-byte key, storable; 8 = 258-byte key of 86 characters; 11 = 65535-byte value, storable;
+// 10 = 65538-byte value of 21846 characters). What is acknowledged must come back from a snapshot after a restart;
+// what the format cannot hold must have been refused.
+const enumerated = 5
+
+func init() {
+	partlib.MBMetas()
+	alphabet = append(alphabet,
+		partlib.Op{Kind: "ins", Items: []partlib.ItemSpec{{ID: 1, Vec: 1, Meta: 9}}},
+		partlib.Op{Kind: "ins", Items: []partlib.ItemSpec{{ID: 2, Vec: 0, Meta: 8}}},
+		partlib.Op{Kind: "upd", Items: []partlib.ItemSpec{{ID: 0, Vec: 1, Meta: 11}}},
+		partlib.Op{Kind: "upd", Items: []partlib.ItemSpec{{ID: 0, Vec: 0, Meta: 10}}},
+	)
+}
+
+var directed = [][]step{
+	{{Op: 0}, {Op: 5}, {Op: 6}, {Op: -1, Snapshot: true}},
+	{{Op: 0}, {Op: 6}, {Op: -1, Snapshot: true}, {Op: 7}, {Op: 8}, {Op: -1, Snapshot: true}},
+	{{Op: 0}, {Op: 8}, {Op: 5}, {Op: -1, Snapshot: true}, {Op: 3}},
+}
+
 func (c caseT) String() string {
 	s := fmt.Sprintf("N=%d [", c.Nodes)
 	if c.Burst {
@@ -304,7 +327,7 @@ func histories(maxLen int, withSnapshot bool) [][]step {
 		if len(h) >= maxLen {
 			return
 		}
-		for i := range alphabet {
+		for i := 0; i < enumerated; i++ {
 			rec(append(h, step{Op: i}), writes+1)
 		}
 		if withSnapshot && writes > 0 && !h[len(h)-1].Snapshot {
@@ -425,6 +448,11 @@ func main() {
 				}
 			}
 		}
+		// the directed histories first: the deadline must not cut them off
+		if !replicasOnly {
+			do(1, directed)
+		}
+		do(3, directed[:1]) // 64 KB log entries on three replicas make Badger flush and compact megabytes per case: keys only
 		if !replicasOnly {
 			do(1, histories(len1, true))
 		}
@@ -452,6 +480,7 @@ func main() {
 	// phase counts here for every answer raft would get wrong (isolation between groups and group deletion do not)
 	run.RunPart("log-store-C06", os.Getenv("VERIF_BIN_C06"), c06Keys, "VERIF_PART_PHASES=^single-group$")
 	run.Assumptions = []string{
+		"directed histories (all crash points, both cluster sizes): metadata keys and values in multi-byte characters on both sides of the byte limits of the snapshot format, with snapshots in between",
 		"a single Badger write batch / transaction is atomic and durable once Flush/Commit returns; torn writes inside Badger and over-sized batches split by Badger are out of scope",
 		"write faults: each durable write of the target may instead FAIL (the store returns an error and writes nothing); the node may die (log.Fatal is taken as a crash) or go on, and is restarted after the history either way",
 		"between two durable writes the durable state is constant, so crashing immediately before the next write dominates every earlier instant of the interval; both ends of every interval are enumerated",
